@@ -65,6 +65,9 @@ class Core:
                 return LIST(self.parse_sort(inner))
             if head == "tuple":
                 return TUPLE(*[self.parse_sort(x) for x in _split_top(inner)])
+            if head == "dict":
+                kk, vv = _split_top(inner)
+                return Sort("dict", (self.parse_sort(kk), self.parse_sort(vv)))
         if t.startswith("opaque:"):
             return OPAQUE(t[7:])
         if t in self.U.records:
@@ -190,6 +193,13 @@ class Core:
             raise Unsupported(f"cannot store {v} as {sort}")
         if k == "none":
             return None
+        if k == "dict":
+            if isinstance(v, V) and v.sort.kind == "dict":
+                return v.t
+            if isinstance(v, VFunc) and v.kind == "bound" and v.name == "get":
+                # a stored bound `dict.get` is represented by its receiver (see ThemeStack.get)
+                return self.to_term(v.obj, sort, st)
+            raise Unsupported(f"cannot store {getattr(v, 'sort', type(v).__name__)} as {sort}")
         if k == "ostr":
             if isinstance(v, V) and v.sort.kind == "ostr":
                 return v.t
